@@ -128,6 +128,7 @@ def run_impl(inp, work):
     if r[0] == 'ok' and rp[0] == 'ok':
         out['build'] = {'ind': r[1][0].tolist(), 'val': _q(r[1][1]), 'ind_dtype': str(r[1][0].dtype),
                         'val_dtype': str(r[1][1].dtype),
+                        'pos_dtypes': [str(rp[1][0].dtype), str(rp[1][1].dtype)],
                         'pos_is_transpose': bool(np.array_equal(rp[1][0], r[1][0].T) and np.array_equal(rp[1][1], r[1][1].T))}
     else:
         out['build'] = {'err': r[1] if r[0] == 'err' else rp[1]}
@@ -212,6 +213,8 @@ def oracle(inp, obs):
             fails.append('build-once: some combination of indices occurs more than once')
         if b['ind_dtype'] != 'uint32' or b['val_dtype'] != 'float32':
             fails.append('build-dtypes: %s / %s' % (b['ind_dtype'], b['val_dtype']))
+        if b.get('pos_dtypes', ['uint32', 'float32']) != ['uint32', 'float32']:
+            fails.append('build-dtypes-position: position matrices have element types %s' % b['pos_dtypes'])
         if not b['pos_is_transpose']:
             fails.append('build-transpose: position matrices are not the transposes of the spectroscopic ones')
     m = obs['make']
